@@ -63,6 +63,7 @@ def generate(seed, mode="c01", base_cfg=None):
         "junk": ch.rint(0, 3, "junk") * 97,
         "adv": adv,
         "planted": planted,
+        "pkg_domain": ch.pick([None, None, None, "lib"], "pkgdomain"),  # to_proto(top, domain=...)
     }
     return scn
 
@@ -186,7 +187,7 @@ def execute(scn):
         res["rejected"] = build_exc
         res["nontrivial"] = False
         return res
-    r = it.run(["to_proto", [top], True])
+    r = it.run(["to_proto", [top], True] + ([scn["pkg_domain"]] if scn.get("pkg_domain") else []))
     res["sched"] = sched.stats()
     if not r["ok"]:
         probe("valid_design_rejected_at_export")
